@@ -235,6 +235,15 @@ func (w *world) post(n int) Ev {
 		pr := in.last
 		if in.alive {
 			pr = w.proj(in)
+		} else if sl, ok := pr[3].([]any); ok {
+			// (the projection of a dead instance is frozen, but the specification lists services in the CURRENT join order:
+			// a pod restarted since then has moved to the end)
+			sl = append([]any{}, sl...)
+			sort.SliceStable(sl, func(a, b int) bool {
+				x, y := w.inst[sl[a].(int)], w.inst[sl[b].(int)]
+				return x != nil && y != nil && x.id.ClusterJoinTime < y.id.ClusterJoinTime
+			})
+			pr = []any{pr[0], pr[1], pr[2], sl}
 		}
 		info[i-1], am[i-1], leaderOf[i-1], services[i-1] = pr[0], pr[1], pr[2], pr[3]
 	}
